@@ -342,7 +342,19 @@ def run_path(fn, prefix, st, timeout_ms, name):
             if z3.is_true(c):
                 st["discharged"] += 1
                 continue
-            rr = "sat" if z3.is_false(c) else e.check(z3.Not(cond))
+            rr = None
+            if not z3.is_false(c):
+                # an obligation that is valid on its own (without the path condition) is valid on the path
+                s0 = z3.Solver()
+                s0.set("timeout", 3000)
+                s0.add(z3.Not(c))
+                t0 = time.time()
+                if str(s0.check()) == "unsat":
+                    rr = "unsat"
+                    e.q["unsat"] += 1
+                e.solver_s += time.time() - t0
+            if rr is None:
+                rr = "sat" if z3.is_false(c) else e.check(z3.Not(cond))
             if rr == "unsat":
                 st["discharged"] += 1
             elif rr == "unknown":
